@@ -34,11 +34,11 @@ func genPacketOp(g *kernel.Rng, e int, respBias bool) kernel.Op {
 		if g.Bool(0.4) {
 			t = 4
 		}
-		return kernel.Op{K: "connectRes", T: e, N: []int64{t, int64(g.U32()), int64(g.Range(1, 30)), int64(g.Intn(2)), int64(g.U32())}}
+		return kernel.Op{K: "connectRes", T: e, N: []int64{t, int64(g.U32()), int64(g.Range(1, 30)), int64(g.Intn(2)), int64(g.U32()), int64(g.Pick(5, 1))}}
 	case 2:
 		return kernel.Op{K: "createStream", T: e, N: []int64{t, int64(g.Pick(5, 1)), int64(g.U32())}}
 	case 3:
-		return kernel.Op{K: "createStreamRes", T: e, N: []int64{t, int64(g.Range(0, 20)), int64(g.Pick(6, 1)), int64(g.U32())}}
+		return kernel.Op{K: "createStreamRes", T: e, N: []int64{t, int64(g.Range(0, 20)), int64(g.Pick(6, 1)), int64(g.U32()), int64(g.Pick(4, 1))}}
 	case 4:
 		return kernel.Op{K: "publish", T: e, N: []int64{t, int64(g.U32()), int64(g.OneOf(0, 1, 8, 40, 300)), int64(g.OneOf(0, 4, 9))}}
 	case 5:
@@ -83,7 +83,10 @@ func gen(g *kernel.Rng, seed uint64, tier string) *kernel.Plan {
 		noise := func(e int) {
 			for k := g.Range(0, 3); k > 0; k-- {
 				op := genPacketOp(g, e, false)
-				for op.K != "was" && op.K != "spb" && op.K != "uc" && op.K != "scs" {
+				// the client's noise is control traffic only (the server waits for
+				// its commands by type); the server may also send commands and
+				// requests of its own, which the client's typed waits must skip
+				for op.K != "was" && op.K != "spb" && op.K != "uc" && op.K != "scs" && !(e == 1 && (op.K == "connect" || op.K == "call" || op.K == "publish" || op.K == "closeStream")) {
 					op = genPacketOp(g, e, false)
 				}
 				p.Ops = append(p.Ops, op)
@@ -167,6 +170,8 @@ type sendRec struct {
 	tid          float64
 	respTid      float64
 	isResp       bool
+	errName      bool   // a response sent with the command name _error
+	fields       string // %+v of a control packet's exported fields
 }
 
 type recvRec struct {
@@ -180,6 +185,7 @@ type recvRec struct {
 	err     error
 	remEq   bool
 	sizeOK  bool
+	fields  string
 }
 
 type side struct {
@@ -209,6 +215,22 @@ func cmdName(b []byte) string {
 }
 
 func typeName(p rtmp.Packet) string { return reflect.TypeOf(p).String() }
+
+// fieldsOf renders the exported fields of the fixed-layout control packets, so
+// that field values (not only bytes) are compared across the wire.
+func fieldsOf(p rtmp.Packet) string {
+	switch q := p.(type) {
+	case *rtmp.UserControl:
+		return fmt.Sprintf("%+v", *q)
+	case *rtmp.SetChunkSize:
+		return fmt.Sprintf("%+v", *q)
+	case *rtmp.WindowAcknowledgementSize:
+		return fmt.Sprintf("%+v", *q)
+	case *rtmp.SetPeerBandwidth:
+		return fmt.Sprintf("%+v", *q)
+	}
+	return ""
+}
 
 func run(p *kernel.Plan) (res *kernel.Result) {
 	res = &kernel.Result{}
@@ -251,6 +273,7 @@ func run(p *kernel.Plan) (res *kernel.Result) {
 			}
 			if pkt != nil && !reflect.ValueOf(pkt).IsNil() {
 				rr.pktType = typeName(pkt)
+				rr.fields = fieldsOf(pkt)
 				if b, err := pkt.MarshalBinary(); err == nil {
 					rr.remEq = m != nil && bytes.Equal(b, m.Payload)
 					rr.sizeOK = pkt.Size() == len(b)
@@ -286,18 +309,29 @@ func run(p *kernel.Plan) (res *kernel.Result) {
 			sendFail = fmt.Sprintf("C03/size-mismatch:%s|op %d %s: MarshalBinary gives %d bytes, Size() says %d", kind, i, op.K, len(b), pkt.Size())
 			return true
 		}
+		errNamed := cmdName(b) == "_error"
 		// a fresh packet of the same type unmarshals to equal fields
 		f := rtmpx.Fresh(kind)
-		if err := f.UnmarshalBinary(b); err != nil {
+		if errNamed && kind == "*rtmp.ConnectAppResPacket" {
+			f = nil // the connect response type insists on the name _result
+		}
+		if f == nil {
+		} else if err := f.UnmarshalBinary(b); err != nil {
 			sendFail = fmt.Sprintf("C03/roundtrip-unmarshal:%s|op %d %s: fresh %s cannot unmarshal its own encoding (%d bytes): %v", kind, i, op.K, kind, len(b), err)
 			return true
 		}
-		b2, err := f.MarshalBinary()
-		if err != nil || !bytes.Equal(b, b2) || f.Size() != len(b) {
-			sendFail = fmt.Sprintf("C03/roundtrip-differs:%s|op %d %s: unmarshalled copy re-marshals to %d bytes (Size %d), original %d bytes, err %v", kind, i, op.K, len(b2), f.Size(), len(b), err)
-			return true
+		if f != nil {
+			b2, err := f.MarshalBinary()
+			if err != nil || !bytes.Equal(b, b2) || f.Size() != len(b) {
+				sendFail = fmt.Sprintf("C03/roundtrip-differs:%s|op %d %s: unmarshalled copy re-marshals to %d bytes (Size %d), original %d bytes, err %v", kind, i, op.K, len(b2), f.Size(), len(b), err)
+				return true
+			}
+			if fp := fieldsOf(pkt); fp != "" && fp != fieldsOf(f) {
+				sendFail = fmt.Sprintf("C03/roundtrip-fields:%s|op %d %s: %s unmarshals from its own encoding as %s", kind, i, op.K, fp, fieldsOf(f))
+				return true
+			}
 		}
-		rec := sendRec{op: i, kind: kind, bytes: b, step0: s.S.Now()}
+		rec := sendRec{op: i, kind: kind, bytes: b, step0: s.S.Now(), errName: errNamed, fields: fieldsOf(pkt)}
 		switch q := pkt.(type) {
 		case *rtmp.ConnectAppPacket:
 			rec.reqName, rec.tid = "connect", float64(q.TransactionID)
@@ -331,6 +365,7 @@ func run(p *kernel.Plan) (res *kernel.Result) {
 			}
 			if pkt != nil && !reflect.ValueOf(pkt).IsNil() {
 				rr.pktType = typeName(pkt)
+				rr.fields = fieldsOf(pkt)
 				if b, err := pkt.MarshalBinary(); err == nil {
 					rr.remEq = m != nil && bytes.Equal(b, m.Payload)
 					rr.sizeOK = pkt.Size() == len(b)
@@ -576,7 +611,10 @@ func evalDir(res *kernel.Result, p *kernel.Plan, from, to *side, name string) bo
 		}
 		want := map[string]string{"connect": "*rtmp.ConnectAppResPacket", "createStream": "*rtmp.CreateStreamResPacket"}[nm]
 		res.Stat("responses_matched", 1)
-		if want == sr.kind {
+		if sr.errName {
+			res.Stat("responses_named_error", 1)
+		}
+		if want == sr.kind && !(sr.errName && want == "*rtmp.ConnectAppResPacket") {
 			return exp{[]string{want}, true}
 		}
 		res.Stat("responses_of_other_kind", 1)
@@ -601,6 +639,10 @@ func evalDir(res *kernel.Result, p *kernel.Plan, from, to *side, name string) bo
 				k = "response-guessed"
 			}
 			res.Fail("C03/"+k+":"+sr.kind, "%s: packet %d sent as %s (%d bytes, command %q) was decoded as %q err=%v; the protocol defines %v", name, i, sr.kind, len(sr.bytes), cmdName(sr.bytes), rr.pktType, rr.err, ex.types)
+			return false
+		}
+		if got != "" && sr.fields != "" && rr.fields != sr.fields {
+			res.Fail("C03/fields-differ:"+sr.kind, "%s: packet %d sent as %s arrived as %s", name, i, sr.fields, rr.fields)
 			return false
 		}
 		if got != "" && (!rr.remEq || !rr.sizeOK) {
@@ -737,7 +779,7 @@ func ucSweep() string {
 		p.EventType = rtmp.EventType(et)
 		p.EventData = int32(0x01020304 + et)
 		if p.EventType == rtmp.EventTypeFmsEvent0 {
-			p.EventData = 0x7f
+			p.EventData = 0xfe
 		}
 		if p.EventType == rtmp.EventTypeSetBufferLength {
 			p.ExtraData = int32(-5 - et)
